@@ -32,6 +32,7 @@ def run(ctx):
         ctx.design("Session/FileStore.tla", "FileStore_f8_quick.cfg" if q else "FileStore_f8.cfg", workers=8, timeout=1700, heap="12g",
                    note="buffer pointer not advanced after a short write (F8) allowed")
         if not q:
+            ctx.design("Session/FileStore.tla", "FileStore_3saves.cfg", workers=8, timeout=1700, heap="12g", note="three saves in a row")
             ctx.design("Session/FileStore.tla", "FileStore_2files.cfg", workers=8, timeout=1700, heap="12g", note="two files, gc")
         ctx.design("Session/FileStore.tla", "FileStore_mutHdr.cfg", workers=4, timeout=300, expect_violation="NoMix",
                    count=False, note="self-test: header written in two writes must violate NoMix")
@@ -90,7 +91,7 @@ def run(ctx):
                                 "durability loss, allowed by C18 and by the model (Advance = {TRUE, FALSE})" % (stats["short_load_none"], stats.get("short_short_saves", 0)))
     ctx.extra["rule"] = ("executions = Reset-delimited runs: one old/new payload pair with all its crash images, one gc history, or one short-write save; "
                          "events = trace lines TLC matched (one CrashLoad line = one materialised crash image + real load + existence test)")
-    ctx.extra["exhaustive"] = True
+    ctx.extra["exhaustive"] = False   # per payload pair every crash image of <= 8 sectors is materialised; the pair list itself is a selection
 
 
 def short(ev):
